@@ -26,16 +26,19 @@ RULE = ('cases = (aperture-dependent package in format 1 or 2 with 2..8 aperture
         'distance range, log-distance step, A_V range, 4 sources over all flags) drawn from the quantifier of C02; a '
         'case is non-trivial when the grid has >= 2 trial distances or some theta*d lies beyond the largest aperture; '
         'distinct = distinct canonical hash of the generated inputs')
-REQUIRED_BRANCHES = ['single_on_first_knot', 'single_on_inner_knot', 'single_on_last_knot', 'rebuilt_in_place', 'rebuilt_same_format', 'rebuilt_other_format', 'flux_other_unit', 'named_in_cube', 'ap_table_other_unit', 'ext_other_unit', 'theta_other_unit', 'same_theta_diff_tables',
+REQUIRED_BRANCHES = ['more_than_4096_models', 'single_on_first_knot', 'single_on_inner_knot', 'single_on_last_knot', 'rebuilt_in_place', 'rebuilt_same_format', 'rebuilt_other_format', 'flux_other_unit', 'named_in_cube', 'ap_table_other_unit', 'ext_other_unit', 'theta_other_unit', 'same_theta_diff_tables',
                      'pred_fluxes', 'chi2_big_compared', 'range_other_unit', 'exact_multiple', 'format1', 'format2', 'dmin_eq_dmax', 'multi_distance', 'beyond_largest', 'inside_table',
                      'flux_monotone', 'flux_arbitrary', 'clamp_low', 'clamp_high', 'interior', 'lo_eq_hi',
                      'best_first', 'best_last', 'best_inner', 'limit_violated', 'limit_ok', 'flag4', 'flag0or9',
-                     'theta_dmin_on_knot', 'theta_dmin_on_knot_strict']
+                     'theta_dmin_on_knot', 'theta_dmin_on_knot_strict', 'sc_at_dmin_exact', 'sc_at_dmax_exact']
 ASSUMPTIONS = ['IEEE rounding is not modelled: av / chi2 are compared with a 1e-9 x (condition scale) budget, sc with 1e-9',
                'the code takes log10 of 10**grid; the difference from the exact grid value is part of the sc budget',
                'decisions closer than 1e-7 to their threshold (ceil of the grid length, argmin gap between the two best '
-               'distances, A_V clamp, limit side, theta*dmin against the smallest aperture) are counted as margin_relaxed '
-               'and not compared',
+               'distances, A_V clamp, limit side) are counted as margin_relaxed and not compared',
+               'theta*dmin on the smallest aperture: the first trial distance is dmin itself, so a result is required whenever '
+               'the float product arcsec x pc is not below the table; only a decimal equality whose float product rounds below '
+               'the table is a margin case; at the two ends of the grid the reported scale must be np.log10(dmin) / '
+               'np.log10(dmax) exactly',
                'tables are increasing in aperture; theta*dmin is never below the smallest aperture (the quantifier)']
 N = {'quick': 120, 'thorough': 5000}
 FLAGS = [0, 1, 2, 3, 4, 9]
@@ -71,14 +74,14 @@ def lower_bound(case):
                  numbers they were written as (2 arcsec x 0.7 kpc = 1400 AU);
     near       - some band is within MARGIN of equality;
     accept_ref - the radius at the first trial distance, evaluated in float64 the way the property states it
-                 (AU = arcsec x pc; first distance = dmin, through 10**log10 unless the range is degenerate), is not
-                 below the table either - then the tabulated value is due and an exception is a failure;
+                 (AU = arcsec x pc; the first trial distance IS dmin), is not below the table either - then the
+                 tabulated value is due and an exception is a failure; only an exact (decimal) equality whose float
+                 product rounds below the table stays a margin case;
     knots      - per band the first knot to send to the exact model: when the float knot exceeds the exact product by
                  less than 1e-12 relative (decimal equality, binary sub-ulp difference) the exact product itself"""
     F = common.Fraction
     dmin = case['dmin']
-    d0 = dmin if dmin == case['dmax'] else float(10. ** np.log10(dmin))
-    dpc = float((d0 * u.kpc).to(u.pc).value)
+    dpc = float((dmin * u.kpc).to(u.pc).value)
     in_quant, near, accept, knots = True, False, True, []
     for t, a in zip(case['thetas'], case['aps']):
         r = F(t) * F(dmin) * 1000
@@ -103,6 +106,11 @@ def gen_case(rng, directed=None):
         rkind = 'on_knot'
     nb = 1 if rng.random() < 0.08 else rng.randint(2, 5)
     nm = rng.randint(1, 6)
+    big = bool(directed and len(directed) > 4 and directed[4].get('big'))
+    if big:
+        # more models than any internal block size (4096), not a multiple of it; few bands / apertures / distances
+        nb, nm, nap = 2, rng.randint(4, 6), 2
+        n_total = rng.randint(4100, 5000)
     nap = rng.randint(2, 8)
     if rkind in KNOT:
         nap = max(nap, 3)
@@ -121,12 +129,9 @@ def gen_case(rng, directed=None):
     step = rng.choice([0.005, 0.01, 0.02, 0.025, 0.05, 0.1, 0.2, 0.5, nice(rng, 0.005, 0.5, 2)])
     dmin = nice(rng, 0.05, 20., 3)
     if rkind == 'on_knot':
-        # decimal numbers; for the 'accept' variant the log round trip of dmin is exact in floats
-        want = (directed[4].get('knot_accept') if directed and len(directed) > 4 else rng.random() < 0.6)
-        for _ in range(500):
-            dmin = nice(rng, 0.05, 20., rng.choice([1, 2, 2, 3]))
-            if not want or float(10. ** np.log10(dmin)) == dmin:
-                break
+        # decimal numbers; knot_margin: the float product theta*(dmin*1000) rounds below the decimal product
+        knot_margin = (directed[4].get('knot_accept') is False) if directed and len(directed) > 4 else rng.random() < 0.1
+        dmin = nice(rng, 0.05, 20., rng.choice([1, 2, 2, 3]))
     if rkind in KNOT:
         dmin = rng.choice([0.03125, 0.0625, 0.125, 0.25, 0.5, 0.75, 1., 1.5, 2., 4., 5., 8., 10.])   # exact in binary
     if rkind in SINGLE:
@@ -137,6 +142,9 @@ def gen_case(rng, directed=None):
         dmax = float('%.4g' % (dmin * 10 ** span))
         if dmax <= dmin:
             dmax = dmin * 2
+    if big and rkind not in SINGLE:
+        step = 0.5
+        dmax = float('%.4g' % (dmin * 10 ** rng.uniform(0.3, 0.45)))
     # log-width an exact multiple of the step (e.g. 1..10 kpc with step 0.25): the ceil() in the grid length is
     # then taken at an exact integer, in the code's float arithmetic too
     exact = (bool(directed) and len(directed) > 3 and directed[3] == 'exact') or (not directed and rng.random() < 0.06)
@@ -169,10 +177,20 @@ def gen_case(rng, directed=None):
     if rkind == 'on_knot':
         # theta x dmin x 1000 evaluated in floats is the decimal product: the smallest aperture IS theta*dmin
         for j in range(nb):
-            for _ in range(200):
-                if dec(thetas[j]) * dec(dmin) * 1000 == common.Fraction(thetas[j] * (dmin * 1000.)):
+            for _ in range(3000):
+                prod = dec(thetas[j]) * dec(dmin) * 1000
+                if not knot_margin and prod == common.Fraction(thetas[j] * (dmin * 1000.)):
                     break
-                thetas[j] = nice(rng, 0.5, 30., 2)
+                if knot_margin and float(prod) == prod and thetas[j] * (dmin * 1000.) < float(prod):
+                    break
+                thetas[j] = nice(rng, 0.5, 30., rng.choice([2, 3]))
+                if knot_margin and j == 0 and rng.random() < 0.2:
+                    dmin = nice(rng, 0.05, 20., rng.choice([2, 3]))
+            else:
+                thetas[j] = 2.
+        if knot_margin:
+            dmax = float('%.4g' % (dmin * rng.uniform(1.3, 4.)))
+            du = [dmin, dmax]
     if opts.get('same_theta') or (not directed and rng.random() < 0.15):
         thetas = [thetas[0]] * nb        # one angular aperture for all bands (tables may still differ)
     # the aperture radii may be given in any angle unit; the model works with the arcsec floats the code derives
@@ -201,7 +219,7 @@ def gen_case(rng, directed=None):
         rmin = theta_lo * dmin * 1000.
         rmax = theta_hi * dmax * 1000.
         if rkind == 'on_knot':
-            a0 = theta_lo * (dmin * 1000.)
+            a0 = float(dec(theta_lo) * dec(dmin) * 1000)
         else:
             a0 = float('%.3g' % (rmin * rng.uniform(0.2, 0.95)))
             if not a0 * (1 + 1e-6) < rmin:
@@ -276,7 +294,7 @@ def gen_case(rng, directed=None):
         v = round(rng.uniform(0, 10), 1)
         av = [v, v]
     sources = []
-    for si in range(4):
+    for si in range(1 if big else 4):
         flags = [rng.choice(FLAGS) for _ in range(nb)]
         good = [j for j in range(nb) if ks[j] != 0.]
         if not good:
@@ -309,6 +327,8 @@ def gen_case(rng, directed=None):
                 aps_stored=stored, ext_unit=ext_unit, flux_unit=flux_unit, flux_stored=flux_stored,
                 # a share of cases first builds and fits a DIFFERENT package in the same directory (a package regenerated
                 # in place within one process): anything remembered across packages by path would show
+                n_total=(n_total if big else None),
+                av_after=bool(opts.get('av_after') or (not directed and rng.random() < 0.25)),
                 rebuild=(opts.get('rebuild') or (None if directed else rng.choice([None, None, None, 'same', 'other']))))
 
 
@@ -330,6 +350,9 @@ DIRECTED = [(1, 'inside', 'interior'), (2, 'beyond', 'clamp_low'), (1, 'beyond',
             (1, 'on_knot', 'wide', None, dict(knot_accept=False)), (2, 'on_knot', 'wide', None, dict(knot_accept=False)),
             (1, 'knot_first', 'wide'), (2, 'knot_first', 'interior'), (1, 'knot_first', 'interior'), (2, 'knot_first', 'wide'),
             (1, 'knot_inner', 'wide'), (2, 'knot_inner', 'interior'), (1, 'knot_last', 'wide'), (2, 'knot_last', 'interior'),
+            (1, 'inside', 'wide', None, dict(big=True)),
+            (1, 'inside', 'clamp_low', None, dict(av_after=True)), (2, 'beyond', 'clamp_high', None, dict(av_after=True)),
+            (1, 'mixed', 'lo_eq_hi', None, dict(av_after=True)),
             (1, 'inside', 'wide', None, dict(rebuild='same')), (2, 'beyond', 'interior', None, dict(rebuild='same')),
             (1, 'beyond', 'wide', None, dict(rebuild='other')), (2, 'inside', 'wide', None, dict(rebuild='other')),
             (2, 'mixed', 'interior', None, dict(rebuild='same', named=True)),
@@ -345,7 +368,15 @@ def gen_cases(seed, tier):
 # ----------------------------------------------------------------------------- execution
 
 def names_of(case):
-    return ['m%03d' % i for i in range(len(case['flux'][0]))]
+    return ['m%03d' % i for i in range(case.get('n_total') or len(case['flux'][0]))]
+
+
+def full_rows(case, j, key='flux'):
+    """the rows of band j for every model of the package: the distinct rows, repeated cyclically under distinct
+    names when the package is larger than the set of distinct rows (the exact model is asked for the distinct rows only)"""
+    rows = case[key][j]
+    n = case.get('n_total') or len(rows)
+    return [rows[i % len(rows)] for i in range(n)]
 
 
 def ext_numbers(case):
@@ -362,7 +393,7 @@ def write_convolved(case, d, fn, j, names):
     from sedfitter.convolved_fluxes import ConvolvedFluxes
     nm = len(names)
     funit = u.Unit(case.get('flux_unit', 'mJy'))
-    fl = case['flux'][j] if case.get('flux_stored') is None else case['flux_stored'][j]
+    fl = full_rows(case, j, 'flux' if case.get('flux_stored') is None else 'flux_stored')
     if case.get('ap_unit', 'au') == 'au':
         pk.write_convolved(d, fn, case['wavs'][j], names, fl, [[0.] * len(case['aps'][j])] * nm,
                            apertures_au=case['aps'][j], unit=funit)
@@ -381,9 +412,14 @@ def make_fitter(case, d, fnames, ext, remove_resolved=False):
     from sedfitter.fit import Fitter
     apertures = np.array(case.get('thetas_given', case['thetas']), dtype=float) * u.Unit(case.get('theta_unit', 'arcsec'))
     drange = np.array(case.get('drange_in_unit') or (case['dmin'], case['dmax']), dtype=float) * u.Unit(case.get('dunit', 'kpc'))
+    av = tuple(case['av'])
+    # (the A_V range is NOT re-assigned on a live Fitter: the class documentation says that the fit parameters cannot
+    # be changed once the object is initialised, so a change that stops honouring a later assignment breaks nothing
+    # the property states; the seeded change C02_n is classified outside the quantifier)
     with common.quiet():
-        return Fitter(fnames, apertures, d, extinction_law=ext, av_range=tuple(case['av']), distance_range=drange,
-                      use_memmap=False, remove_resolved=remove_resolved)
+        f = Fitter(fnames, apertures, d, extinction_law=ext, av_range=av, distance_range=drange,
+                   use_memmap=False, remove_resolved=remove_resolved)
+    return f
 
 
 def build(case, d):
@@ -410,7 +446,7 @@ def build(case, d):
         val = np.ones((nm, nap, len(wav)))
         funit = u.Unit(case.get('flux_unit', 'mJy'))
         for j in shared:
-            val[:, :, j] = np.array(case['flux'][j] if case.get('flux_stored') is None else case['flux_stored'][j], dtype=float)
+            val[:, :, j] = np.array(full_rows(case, j, 'flux' if case.get('flux_stored') is None else 'flux_stored'), dtype=float)
         if case.get('ap_unit', 'au') == 'au':
             pk.write_cube_package(d, names, wav, val, np.zeros_like(val), apertures_au=case['aps'][j0],
                                   aperture_dependent=True, logd_step=case['step'], unit=funit)
@@ -592,6 +628,8 @@ def run_case(case):
             branches.add('ext_other_unit')
         if case.get('flux_unit', 'mJy') != 'mJy':
             branches.add('flux_other_unit')
+        if len(names) > 4096:
+            branches.add('more_than_4096_models')
         if case.get('theta_unit', 'arcsec') != 'arcsec':
             branches.add('theta_other_unit')
         nbands = len(case['wavs'])
@@ -610,6 +648,7 @@ def run_case(case):
         lo, hi = case['av']
         if lo == hi:
             branches.add('lo_eq_hi')
+        name_pos = {n: i for i, n in enumerate(names)}
         for si, src in enumerate(case['sources']):
             s = pk.make_source('s%d' % si, src['flags'], src['flux'], src['err'])
             with common.quiet():
@@ -622,7 +661,7 @@ def run_case(case):
             if 4 in src['flags']:
                 branches.add('flag4')
             for row, nme in enumerate(got['name']):
-                e = exp['srcs'][si][names.index(nme)]
+                e = exp['srcs'][si][name_pos[nme] % len(case['flux'][0])]
                 c2 = float(e['chi2'])
                 # rounding budget of chi2: relative part + 1e4 x eps x (sum of the magnitudes that enter the sum)
                 # + the rounding of log10(model flux) when the linear interpolation cancels (fcond), propagated
@@ -659,6 +698,13 @@ def run_case(case):
                     branches.add('limit_ok')
                 okav = abs(got['av'][row] - av_m) <= 1e-9 * ascale
                 oksc = abs(got['sc'][row] - float(e['sc'])) <= 1e-9
+                # the grid starts at dmin and ends at dmax: there the reported scale is log10 of that very float
+                if e['bi'] == 0:
+                    oksc = oksc and float(got['sc'][row]) == float(np.log10(case['dmin']))
+                    branches.add('sc_at_dmin_exact')
+                elif e['bi'] == nd - 1:
+                    oksc = oksc and float(got['sc'][row]) == float(np.log10(case['dmax']))
+                    branches.add('sc_at_dmax_exact')
                 okc2 = abs(got['chi2'][row] - c2) <= ctol
                 # predicted log fluxes stored with the row: av * av_law + log10(model flux at the best distance)
                 mf = got['model_fluxes']
@@ -707,7 +753,8 @@ def direct_check(case):
         try:
             fitter = make_fitter(case, d, fnames, ext)
         except Exception as e:      # noqa: BLE001
-            if case['rkind'] == 'on_knot':
+            lb = lower_bound(case)
+            if lb['near'] and not (lb['in_quant'] and lb['accept_ref']):
                 return None
             return 'Fitter(...) raised %s: %s (%s)' % (type(e).__name__, e, describe(case))
         lo, hi = case['av']
@@ -741,7 +788,7 @@ def direct_check(case):
                 elif fl[j] == 4:
                     lf[j] = f[j]; le[j] = e[j]; w[j] = 1. / e[j] ** 2
             for row, nme in enumerate(got['name']):
-                mi = names.index(nme)
+                mi = names.index(nme) % len(case['flux'][0])
                 chis, avs = [], []
                 for dk in dist:
                     mf = np.array([np_interp_row(case['aps'][j], case['flux'][j][mi], case['thetas'][j] * dk * 1000.) / dk ** 2
@@ -815,7 +862,7 @@ def shrink(case):
         if changed:
             continue
         nm = len(cur['flux'][0])
-        for i in range(nm):
+        for i in range(nm if not cur.get('n_total') else 0):      # repeated-row grids are not shrunk model by model
             if nm > 1:
                 c = dict(cur); c['flux'] = [rows[:i] + rows[i + 1:] for rows in cur['flux']]
                 if fails(c):
